@@ -510,6 +510,10 @@ var plans = []nrun.Plan{
 }
 
 func TestC11(t *testing.T) {
+	if explore.IsWorker() {
+		serveWorker(t, plans)
+		return
+	}
 	nrun.Main(t, &nrun.Check{
 		ID: "C11", TestName: "TestC11", Plans: plans,
 		QuickTime: 75 * time.Second, ThorTime: 18 * time.Minute,
